@@ -202,3 +202,347 @@ Proof.
       rewrite (apply_diff_general mk m _ r ms a); auto.
       exact (apply_general_props pre post mk to m Hm its next gen Hwf Hto _ _ _ LS).
 Qed.
+
+(* --------------------------------------------------------------------- rebuild *)
+
+(** the invariant of a mounted keyed list between updates: [hashed_items] are the keys
+    of [rendered_items], and the parent's children are
+    [pre ++ (nodes of the items, in order) ++ marker :: post] without repetition *)
+Definition st_wf (pre post : list node) (st : kstate) : Prop :=
+  1 <= ks_m st /\ map it_key (ks_items st) = ks_keys st /\
+  ks_dom st = pre ++ flat_map it_nodes (ks_items st) ++ ks_marker st :: post /\
+  wf_items pre post (ks_marker st) (ks_next st) (ks_items st).
+
+(** C11 for one update of a mounted keyed list [st] to the keys [to] *)
+Definition keyed_ok (pre post : list node) (st : kstate) (to : list N) : Prop :=
+  let '(st', log, panicked) := rebuild st to in
+  panicked = false /\
+  (* the children end in the new order; siblings and marker untouched *)
+  ks_dom st' = pre ++ flat_map it_nodes (ks_items st') ++ ks_marker st :: post /\
+  map it_key (ks_items st') = to /\
+  (* common keys keep their item (same nodes, same state) *)
+  (forall it, In it (ks_items st) -> In (it_key it) to -> In it (ks_items st')) /\
+  (* removed keys are unmounted and their nodes are gone *)
+  (forall it, In it (ks_items st) -> ~ In (it_key it) to ->
+     In (EvUnmount (it_key it) (it_gen it)) log /\
+     forall n, In n (it_nodes it) -> ~ In n (ks_dom st')) /\
+  (* exactly the new keys are built, each once, from fresh nodes *)
+  NoDup (built log) /\
+  (forall k, In k (built log) <-> In k to /\ ~ In k (ks_keys st)) /\
+  (forall it, In it (ks_items st') -> In it (ks_items st) \/
+     (ks_gen st <= it_gen it /\ forall n, In n (it_nodes it) -> ~ In n (ks_dom st))) /\
+  (* every set_index call tells an item its new index, and every item whose index changed gets one *)
+  (forall k g i, In (EvSetIndex k g i) log ->
+     exists it, In it (ks_items st) /\ it_key it = k /\ it_gen it = g /\ index_of k to = Some i) /\
+  (forall it i j, nth_error (ks_items st) i = Some it -> index_of (it_key it) to = Some j -> i <> j ->
+     In (EvSetIndex (it_key it) (it_gen it) j) log) /\
+  (* and the invariant holds again *)
+  st_wf pre post st'.
+
+Theorem keyed_rebuild_ok : forall pre post st to,
+  st_wf pre post st -> NoDup to -> keyed_ok pre post st to.
+Proof.
+  intros pre post st to [Hm [Hk [Hd Hwf]]] Hto. unfold keyed_ok, rebuild.
+  pose proof (apply_diff_props pre post (ks_marker st) to (ks_m st) (ks_items st) (ks_next st) (ks_gen st)
+                Hm Hwf Hto) as P.
+  unfold start in P. rewrite <- Hd, Hk in P.
+  set (w := apply_diff (ks_m st) (ks_marker st) (diff (ks_keys st) to) to _) in *.
+  destruct P as [P1 [P2 [P3 [P4 [P5 [P6 [P7 [P8 [P9 [P10 [P11 [P12 P13]]]]]]]]]]]].
+  cbn [ks_dom ks_items ks_keys ks_marker ks_m ks_next ks_gen].
+  assert (forall n, In n (ks_dom st) -> (n < ks_next st)%N) as Hfresh.
+  { intros n Hn. rewrite Hd in Hn. exact (wf_fresh _ _ _ _ _ Hwf n Hn). }
+  split; [exact P1|]. split; [exact P3|]. split; [exact P2|]. split; [exact P7|].
+  split; [|split; [exact P10|split; [rewrite <- Hk; exact P11|split; [|split; [exact P12|split; [exact P13|]]]]]].
+  - (* removed items *)
+    intros it Hit Hn. split; [apply P9; auto|]. intros n Hnn Hc. rewrite P3 in Hc.
+    assert (In n (ks_dom st)) as Hold.
+    { rewrite Hd. apply in_or_app. right. apply in_or_app. left. apply in_flat_map. eauto. }
+    pose proof (wf_dom _ _ _ _ _ Hwf) as Hnd. rewrite <- Hd in Hnd.
+    assert (forall x, In x (pre ++ ks_marker st :: post) -> x <> n) as Hsib.
+    { intros x Hx E. subst x. pose proof (good_of_wf _ _ _ _ _ Hwf) as G.
+      eapply (g_sib _ _ _ _ _ G (it_key it) n); eauto.
+      - apply in_map. auto.
+      - rewrite nodes_in_item; auto. exact (wf_keys _ _ _ _ _ Hwf). }
+    rewrite !in_app_iff in Hc. destruct Hc as [Hc|[Hc|Hc]].
+    + apply (Hsib n); auto. apply in_or_app. left. auto.
+    + apply in_flat_map in Hc. destruct Hc as [it' [Hit' Hn']].
+      destruct (P8 it' Hit') as [Ho|[_ Hf]].
+      * pose proof (good_of_wf _ _ _ _ _ Hwf) as G.
+        assert (it_key it' <> it_key it) as Hne.
+        { intro E. apply Hn. rewrite <- E. rewrite <- P2. apply in_map. auto. }
+        eapply (g_disj _ _ _ _ _ G (it_key it') (it_key it) n); eauto.
+        -- apply in_map. auto.
+        -- apply in_map. auto.
+        -- rewrite nodes_in_item; auto. exact (wf_keys _ _ _ _ _ Hwf).
+        -- rewrite nodes_in_item; auto. exact (wf_keys _ _ _ _ _ Hwf).
+      * specialize (Hf n Hn'). specialize (Hfresh n Hold). lia.
+    + apply (Hsib n); auto. apply in_or_app. right. auto.
+  - (* new items are made of fresh nodes *)
+    intros it Hit. destruct (P8 it Hit) as [Ho|[Hg Hf]]; auto. right. split; auto.
+    intros n Hn Hc. specialize (Hf n Hn). specialize (Hfresh n Hc). lia.
+  - (* the invariant *)
+    unfold st_wf. cbn [ks_dom ks_items ks_keys ks_marker ks_m ks_next ks_gen]. auto.
+Qed.
+
+(* ------------------------------------------------------------------- histories *)
+
+Definition state_after (st : kstate) (to : list N) : kstate := fst (fst (rebuild st to)).
+
+(** every update in a chain of updates satisfies C11, from the state the chain reached *)
+Fixpoint history_ok (pre post : list node) (st : kstate) (tos : list (list N)) : Prop :=
+  match tos with
+  | [] => True
+  | to :: rest => keyed_ok pre post st to /\ history_ok pre post (state_after st to) rest
+  end.
+
+Theorem keyed_history_ok : forall pre post tos st,
+  st_wf pre post st -> Forall (@NoDup N) tos -> history_ok pre post st tos.
+Proof.
+  intros pre post tos. induction tos as [|to tos IH]; intros st Hwf Hnd; [exact I|].
+  inversion Hnd; subst. pose proof (keyed_rebuild_ok pre post st to Hwf H1) as Hok.
+  split; [exact Hok|]. apply IH; auto. unfold state_after. unfold keyed_ok in Hok.
+  destruct (rebuild st to) as [[st' log] p]. cbn [fst]. tauto.
+Qed.
+
+(* ------------------------------------------------ named special cases (corollaries) *)
+
+Corollary keyed_ok_same : forall pre post st,
+  st_wf pre post st -> keyed_ok pre post st (ks_keys st).
+Proof.
+  intros pre post st H. apply keyed_rebuild_ok; auto. destruct H as [_ [Hk [_ Hwf]]].
+  rewrite <- Hk. exact (wf_keys _ _ _ _ _ Hwf).
+Qed.
+
+Corollary keyed_ok_clear : forall pre post st, st_wf pre post st -> keyed_ok pre post st [].
+Proof. intros. apply keyed_rebuild_ok; auto. constructor. Qed.
+
+Corollary keyed_ok_reverse : forall pre post st,
+  st_wf pre post st -> keyed_ok pre post st (rev (ks_keys st)).
+Proof.
+  intros pre post st H. apply keyed_rebuild_ok; auto. destruct H as [_ [Hk [_ Hwf]]].
+  rewrite <- Hk. apply NoDup_rev. exact (wf_keys _ _ _ _ _ Hwf).
+Qed.
+
+Corollary keyed_ok_append : forall pre post st extra,
+  st_wf pre post st -> NoDup (ks_keys st ++ extra) -> keyed_ok pre post st (ks_keys st ++ extra).
+Proof. intros. apply keyed_rebuild_ok; auto. Qed.
+
+Corollary keyed_ok_remove_only : forall pre post st (keep : N -> bool),
+  st_wf pre post st -> keyed_ok pre post st (filter keep (ks_keys st)).
+Proof.
+  intros pre post st keep H. apply keyed_rebuild_ok; auto. destruct H as [_ [Hk [_ Hwf]]].
+  apply NoDup_filter. rewrite <- Hk. exact (wf_keys _ _ _ _ _ Hwf).
+Qed.
+
+(* ------------------------------------------------------- the initial build + mount *)
+
+Fixpoint build_items (m : nat) (ks : list N) (next : N) (gen : nat) : list item :=
+  match ks with
+  | [] => []
+  | k :: r => {| it_key := k; it_gen := gen;
+                 it_nodes := map (fun j => (next + N.of_nat j)%N) (seq 0 m) |}
+              :: build_items m r (next + N.of_nat m)%N (S gen)
+  end.
+
+Lemma build_items_keys : forall m ks next gen, map it_key (build_items m ks next gen) = ks.
+Proof. induction ks as [|k ks IH]; intros; cbn [build_items map it_key]; [|rewrite IH]; reflexivity. Qed.
+
+Lemma build_items_nodes : forall m ks next gen,
+  flat_map it_nodes (build_items m ks next gen)
+  = map (fun j => (next + N.of_nat j)%N) (seq 0 (m * length ks)).
+Proof.
+  induction ks as [|k ks IH]; intros next gen.
+  - cbn [build_items flat_map length]. rewrite Nat.mul_0_r. reflexivity.
+  - cbn [build_items flat_map it_nodes length]. rewrite IH.
+    rewrite Nat.mul_succ_r, Nat.add_comm, seq_app, map_app. f_equal.
+    rewrite (map_seq_shift _ (0 + m)). apply map_ext. intros j.
+    rewrite Nat.add_0_l, Nat2N.inj_add. lia.
+Qed.
+
+Lemma build_items_nonempty : forall m ks next gen it, 1 <= m ->
+  In it (build_items m ks next gen) -> it_nodes it <> [].
+Proof.
+  induction ks as [|k ks IH]; intros next gen it Hm Hin; [contradiction|].
+  cbn [build_items] in Hin. destruct Hin as [E|Hin].
+  - subst. cbn [it_nodes]. destruct m; [lia|]. discriminate.
+  - eapply IH; eauto.
+Qed.
+
+Lemma fold_step_build : forall m ks i w,
+  let w' := fold_left (step_build m) (enumerate_from i ks) w in
+  w_children w' = w_children w ++ map Some (build_items m ks (w_next w) (w_gen w)) /\
+  w_dom w' = w_dom w /\ w_next w' = (w_next w + N.of_nat (m * length ks))%N /\
+  w_gen w' = w_gen w + length ks /\ w_panic w' = w_panic w.
+Proof.
+  induction ks as [|k ks IH]; intros i w; cbv zeta.
+  - simpl. rewrite app_nil_r, Nat.mul_0_r, N.add_0_r, Nat.add_0_r. repeat split; auto.
+  - cbn [enumerate_from fold_left]. destruct (IH (S i) (step_build m w (i, k))) as [C [D [Nx [G P]]]].
+    rewrite C, D, Nx, G, P. cbn [step_build w_children w_dom w_next w_gen w_panic build_items map length].
+    unfold build_item. rewrite <- app_assoc. cbn [app]. repeat split; auto; lia.
+Qed.
+
+Lemma insert_before_fresh_end : forall n l, ~ In n l -> insert_before n None l = l ++ [n].
+Proof. intros. unfold insert_before. rewrite remove_node_notin; auto. Qed.
+
+Lemma mount_fresh : forall (ns : list node) anchor (L R : list node),
+  NoDup ns -> (forall n, In n ns -> ~ In n (L ++ R)) ->
+  (anchor = hd_error R) -> (forall a, anchor = Some a -> ~ In a L) ->
+  fold_left (fun d n => insert_before n anchor d) ns (L ++ R) = L ++ ns ++ R.
+Proof.
+  intros ns anchor L R Hnd Hfresh Ha HaL. destruct R as [|a R]; cbn [hd_error] in Ha; subst anchor.
+  - rewrite !app_nil_r in *. clear HaL. revert L Hfresh. induction ns as [|n ns IH]; intros L Hf.
+    + rewrite app_nil_r. reflexivity.
+    + inversion Hnd; subst. cbn [fold_left]. rewrite insert_before_fresh_end by (apply Hf; left; auto).
+      rewrite IH; auto.
+      * rewrite <- app_assoc. reflexivity.
+      * intros x Hx Hc. apply in_app_or in Hc. destruct Hc as [Hc|[Hc|[]]].
+        -- eapply Hf; eauto. right. auto.
+        -- subst. contradiction.
+  - rewrite mount_block; auto.
+    + rewrite !diffl_disjoint; auto.
+      * intros y Hy Hc. apply (Hfresh y Hc). apply in_or_app. right. right. auto.
+      * intros y Hy Hc. apply (Hfresh y Hc). apply in_or_app. left. auto.
+    + intro Hc. apply (Hfresh a Hc). apply in_or_app. right. left. auto.
+Qed.
+
+Lemma mount_all : forall (pre post : list node) l done dom,
+  dom = pre ++ flat_map it_nodes done ++ post ->
+  NoDup (flat_map it_nodes (done ++ l)) ->
+  (forall n, In n (flat_map it_nodes (done ++ l)) -> ~ In n (pre ++ post)) ->
+  NoDup (pre ++ post) ->
+  fold_left (fun d it => mount_item it (hd_error post) d) l dom
+  = pre ++ flat_map it_nodes (done ++ l) ++ post.
+Proof.
+  intros pre post. induction l as [|it l IH]; intros done dom Hd Hn Hf Hnd.
+  - rewrite app_nil_r. exact Hd.
+  - cbn [fold_left].
+    assert (done ++ it :: l = (done ++ [it]) ++ l) as E by (rewrite <- app_assoc; reflexivity).
+    rewrite E in *. apply IH; auto.
+    rewrite flat_map_app in Hn, Hf. rewrite flat_map_app in Hn, Hf. cbn [flat_map] in Hn, Hf.
+    rewrite app_nil_r in Hn, Hf.
+    unfold mount_item. rewrite Hd.
+    replace (pre ++ flat_map it_nodes done ++ post) with ((pre ++ flat_map it_nodes done) ++ post)
+      by (rewrite <- app_assoc; reflexivity).
+    rewrite mount_fresh; auto.
+    + rewrite flat_map_app. cbn [flat_map]. rewrite app_nil_r, <- !app_assoc. reflexivity.
+    + apply NoDup_app_l in Hn. apply NoDup_app_r in Hn. exact Hn.
+    + intros n Hin Hc. rewrite <- app_assoc in Hc. rewrite !in_app_iff in Hc.
+      destruct Hc as [Hc|[Hc|Hc]].
+      * apply (Hf n); [|apply in_or_app; left; auto]. rewrite !in_app_iff. auto.
+      * apply NoDup_app_l in Hn. eapply NoDup_app_disj; [exact Hn | exact Hc | exact Hin].
+      * apply (Hf n); [|apply in_or_app; right; auto]. rewrite !in_app_iff. auto.
+    + intros a Ea Hc. destruct post as [|p post']; [discriminate|]. inversion Ea. subst a.
+      apply in_app_or in Hc. destruct Hc as [Hc|Hc].
+      * apply NoDup_remove_2 in Hnd. apply Hnd. apply in_or_app. left. auto.
+      * apply (Hf p); [|apply in_or_app; right; left; auto]. rewrite !in_app_iff. auto.
+Qed.
+
+Lemma fold_step_mount : forall anchor l w,
+  let w' := fold_left (step_mount anchor) l w in
+  w_dom w' = fold_left (fun d it => mount_item it anchor d) l (w_dom w) /\
+  w_children w' = w_children w /\ w_next w' = w_next w /\ w_gen w' = w_gen w.
+Proof.
+  intros anchor. induction l as [|it l IH]; intros w; cbv zeta; [auto|].
+  cbn [fold_left]. destruct (IH (step_mount anchor w it)) as [A [B [C D]]].
+  rewrite A, B, C, D. cbn [step_mount w_dom w_children w_next w_gen]. auto.
+Qed.
+
+(** [keyed(keys).build()] mounted before the first following sibling (or appended) gives a
+    well-formed state: the starting point of every history *)
+Theorem build_mount_wf : forall m (pre post : list node) next keys,
+  1 <= m -> NoDup keys -> NoDup (pre ++ post) -> (forall n, In n (pre ++ post) -> (n < next)%N) ->
+  st_wf pre post (fst (build_mount m (pre ++ post) (hd_error post) next keys)) /\
+  ks_keys (fst (build_mount m (pre ++ post) (hd_error post) next keys)) = keys.
+Proof.
+  intros m pre post next keys Hm Hk Hnd Hfr. unfold build_mount.
+  set (w0 := {| w_children := []; w_dom := pre ++ post; w_log := []; w_next := next; w_gen := 0; w_panic := false |}).
+  destruct (fold_step_build m keys 0 w0) as [C [D [Nx [G P]]]].
+  subst w0.
+  match type of C with w_children ?x = _ => set (w1 := x) in * end.
+  cbn [w_children w_dom w_next w_gen w_panic app] in C, D, Nx, G, P.
+  set (items := build_items m keys next 0) in *.
+  set (K := m * length keys) in *.
+  assert (somes (w_children w1) = items) as Hs by (rewrite C; apply somes_map_Some).
+  rewrite Hs.
+  assert (flat_map it_nodes items = map (fun j => (next + N.of_nat j)%N) (seq 0 K)) as Hflat
+    by apply build_items_nodes.
+  assert (forall n, In n (flat_map it_nodes items) -> (next <= n < next + N.of_nat K)%N) as Hrange.
+  { intros n Hn. rewrite Hflat in Hn. apply in_map_iff in Hn. destruct Hn as [j [E Hj]].
+    apply in_seq in Hj. subst. lia. }
+  assert (NoDup (flat_map it_nodes items)) as Hfnd by (rewrite Hflat; apply fresh_nodes_NoDup).
+  destruct (fold_step_mount (hd_error post) items w1) as [M1 [M2 [M3 M4]]].
+  set (w2 := fold_left (step_mount (hd_error post)) items w1) in *.
+  rewrite D in M1. rewrite (mount_all pre post items [] (pre ++ post)) in M1; auto.
+  2:{ intros n Hn Hc. apply Hrange in Hn. apply Hfr in Hc. lia. }
+  cbn [app] in M1.
+  assert (somes (w_children w2) = items) as Hs2 by (rewrite M2; exact Hs).
+  rewrite Hs2, M1, M4, G. set (mk := w_next w1).
+  assert (mk = (next + N.of_nat K)%N) as Emk by exact Nx.
+  (* the marker goes in last *)
+  assert (insert_before mk (hd_error post) (pre ++ flat_map it_nodes items ++ post)
+          = pre ++ flat_map it_nodes items ++ mk :: post) as Hmk.
+  { pose proof (mount_fresh [mk] (hd_error post) (pre ++ flat_map it_nodes items) post) as Hm1.
+    cbn [fold_left] in Hm1. rewrite <- !app_assoc in Hm1. cbn [app] in Hm1. apply Hm1; auto.
+    - constructor; [intros []|constructor].
+    - intros n [E|[]] Hc. subst n. rewrite !in_app_iff in Hc. destruct Hc as [Hc|[Hc|Hc]].
+      + assert (mk < next)%N by (apply Hfr; apply in_or_app; auto). lia.
+      + apply Hrange in Hc. lia.
+      + assert (mk < next)%N by (apply Hfr; apply in_or_app; auto). lia.
+    - intros a Ea Hc. destruct post as [|p post']; [discriminate|]. inversion Ea. subst a.
+      apply in_app_or in Hc. destruct Hc as [Hc|Hc].
+      + apply NoDup_remove_2 in Hnd. apply Hnd. apply in_or_app. left. auto.
+      + apply Hrange in Hc. assert (p < next)%N by (apply Hfr; apply in_or_app; right; left; auto). lia. }
+  rewrite Hmk. cbn [fst ks_m ks_dom ks_marker ks_keys ks_items ks_next ks_gen].
+  split; [|reflexivity]. unfold st_wf. cbn [ks_m ks_dom ks_marker ks_keys ks_items ks_next ks_gen].
+  split; [exact Hm|]. split; [apply build_items_keys|]. split; [reflexivity|].
+  constructor.
+  - unfold items. rewrite build_items_keys. exact Hk.
+  - eapply Permutation_NoDup with (l := mk :: (flat_map it_nodes items ++ pre) ++ post).
+    + eapply perm_trans; [apply Permutation_middle|]. rewrite <- app_assoc.
+      apply Permutation_app_swap_app.
+    + rewrite <- app_assoc. constructor.
+      * intro Hc. rewrite !in_app_iff in Hc. destruct Hc as [Hc|[Hc|Hc]].
+        -- apply Hrange in Hc. lia.
+        -- assert (mk < next)%N by (apply Hfr; apply in_or_app; auto). lia.
+        -- assert (mk < next)%N by (apply Hfr; apply in_or_app; auto). lia.
+      * apply NoDup_app_intro; auto. intros n Hn Hc. apply Hrange in Hn. apply Hfr in Hc. lia.
+  - intros it Hit. eapply build_items_nonempty; eauto.
+  - intros n Hn. rewrite !in_app_iff in Hn. cbn [In] in Hn. destruct Hn as [Hn|[Hn|[Hn|Hn]]].
+    + assert (n < next)%N by (apply Hfr; apply in_or_app; auto). lia.
+    + apply Hrange in Hn. lia.
+    + lia.
+    + assert (n < next)%N by (apply Hfr; apply in_or_app; auto). lia.
+Qed.
+
+(* ------------------------------------------------- the hypotheses are satisfiable *)
+
+(** a keyed list of three 2-node items between two leading and one following sibling *)
+Definition ex_state : kstate :=
+  fst (build_mount 2 ([100; 101] ++ [102])%N (hd_error [102%N]) 200%N [5; 3; 8]%N).
+
+Example ex_state_wf : st_wf [100; 101]%N [102%N] ex_state.
+Proof.
+  apply (build_mount_wf 2 [100; 101]%N [102%N] 200%N [5; 3; 8]%N).
+  - lia.
+  - repeat constructor; simpl; intuition discriminate.
+  - repeat constructor; simpl; intuition discriminate.
+  - simpl. intros n [H|[H|[H|[]]]]; subst; reflexivity.
+Qed.
+
+(** ... updated to a list with a removal, an addition and a move: the theorem applies, and
+    the model indeed ends with the children in the new order *)
+Example ex_keyed_ok : keyed_ok [100; 101]%N [102%N] ex_state [8; 9; 5]%N.
+Proof.
+  apply keyed_rebuild_ok; [exact ex_state_wf|]. repeat constructor; simpl; intuition discriminate.
+Qed.
+
+Example ex_result :
+  ks_dom (state_after ex_state [8; 9; 5]%N) = [100; 101; 204; 205; 207; 208; 200; 201; 206; 102]%N
+  /\ ks_dom ex_state = [100; 101; 200; 201; 202; 203; 204; 205; 206; 102]%N.
+Proof. vm_compute. split; reflexivity. Qed.
+
+Example ex_history : history_ok [100; 101]%N [102%N] ex_state [[8; 9; 5]; []; [1; 2]; [2; 1; 7]]%N.
+Proof.
+  apply keyed_history_ok; [exact ex_state_wf|].
+  repeat constructor; simpl; intuition discriminate.
+Qed.
